@@ -232,6 +232,22 @@ CLAIMS["C10"] = dict(
          "(functions referenced nowhere in mindsdb_sql) carries no obligations and is listed in the evidence notes.",
     technique="interprocedural must-dataflow (case-normalised names) + guard extraction on the sibling resolvers + truth table of the CTE filter")
 
+CLAIMS["C11"] = dict(
+    level="other", engine="pyflow",
+    text="Decides the shape clauses of the statement, not execution equivalence: both sibling gates "
+         "(QueryPlanner.check_single_integration, PlanJoin.check_single_integration) are interpreted on the complete space of "
+         "abstract facts (MindsDB entities x integration set {none, one, files, views, two} x user function x class_type "
+         "{api, sql, absent, not in catalog}: 80 rows each) and must accept exactly the rows the statement names; on "
+         "acceptance the only effects are prepare_integration_select(<gate integration>, <analysed query>) and one "
+         "add_step(FetchDataframeStep(integration=<gate integration>, query=<same object>)) followed by an immediate return "
+         "(from_query: return self.plan), on refusal no effect; the rewrite callback stores only node.parts (pop(0) under "
+         "len > 1 and the normalised comparison, guards reading nothing but the identifier and the integration name) and "
+         "node.alias (is_target, alias is None, value = own last part) and returns None; the walker it relies on is "
+         "re-analysed with C13's model (every field visited once with the right flags).",
+    note="That removing the qualifier preserves meaning for every query (aliases shadowing the integration name) needs SQL "
+         "scope resolution over all programs and is not decided; the rule only proves the rewrite touches nothing else.",
+    technique="truth-table interpretation of the sibling gates + effect sequence on the accept path + write-set/guard analysis of the rewrite callback")
+
 NA_PENDING = "check under construction in this session; not claimed until its rule module is committed"
 
 
